@@ -141,7 +141,8 @@ def state_discipline(ctx: Ctx, cg: CallGraph):
             else:
                 ctx.proved("R16.2", f"{site}::argument", f"prefix argument `{norm(arg) if arg is not None else None}` (decided by R16.m histories)")
         else:
-            txt = norm(arg) if arg is not None else ""
+            from ..extract import expand_names
+            txt = norm(expand_names(fi, arg)) if arg is not None else ""
             ok2 = "nsmap" in txt and ("tree" in txt or "getroot" in txt or "root" in txt)
             ctx.decide(ok2 or None, "R16.2", f"{site}::argument", "namespace map comes from this document's root",
                        f"set_nsmap is given `{txt}`", where=where(fi, call))
@@ -355,6 +356,7 @@ SPEC = PropSpec(
     title="Loading is independent of lexical spelling and of earlier loads",
     check=check,
     floors={"R16.1": 15, "R16.2": 4, "R16.3": 20, "R16.5": 1, "R16.m": 20},
+    fallback={"R16.2": ("R16.m",)},
     explanation=("R16.1 element-typed dataflow over every reader in the call-graph closure of from_xtce: a variable holding "
                  "an element (parameter, find result, loop variable over iterfind/findall) is never iterated, indexed, "
                  "len()-ed or list()-ed - children are reached through find/findall/iterfind, which select elements "
